@@ -79,7 +79,10 @@ fn real_main() {
             let name = args.get(2).expect("scenario");
             let level: u8 = args.get(3).and_then(|v| v.parse().ok()).unwrap_or(1);
             let budget: f64 = arg_val(&args, "--budget").and_then(|v| v.parse().ok()).unwrap_or(60.0);
-            let s = scen::build(name, level).expect("unknown scenario");
+            let mut s = scen::build(name, level).expect("unknown scenario");
+            if args.iter().any(|a| a == "--clone-checks") {
+                s.clone_checks = true;
+            }
             let s = scen::leak(s);
             let cfg = RunCfg {
                 threads,
